@@ -153,6 +153,20 @@ func C16(c *core.Ctx) {
 			switch v := r.Results[0].(type) {
 			case *ssa.Alloc:
 				good = true
+			case *ssa.Call:
+				// an own helper that returns a fresh allocation on every path (hostIPNet(ip))
+				if h := core.StaticFn(v); h != nil && h.Blocks != nil && p.IsOwnFn(h) {
+					all, n := true, 0
+					core.Instrs(h, func(hin ssa.Instruction) {
+						if hr, isR := hin.(*ssa.Return); isR && len(hr.Results) == 1 {
+							n++
+							if al, isAl := hr.Results[0].(*ssa.Alloc); !isAl || al.Parent() != h {
+								all = false
+							}
+						}
+					})
+					good = all && n > 0
+				}
 			case *ssa.Extract:
 				// ipnet of net.ParseCIDR under err == nil
 				if cl, ok := v.Tuple.(*ssa.Call); ok && core.Callee(cl) != nil && core.Callee(cl).Name() == "ParseCIDR" {
@@ -234,7 +248,9 @@ func C16(c *core.Ctx) {
 		}
 		// literal <-> constant name
 		if strings.HasPrefix(r.Src, "const:SDF_FILTER_") && strings.Contains(r.Guards, "==") {
-			lit := strings.Trim(r.Guards[strings.Index(r.Guards, "==")+2:], `"`)
+			// the innermost selector (last conjunct) names the keyword this constant stands for
+			g := r.Guards[strings.LastIndex(r.Guards, "&")+1:]
+			lit := strings.Trim(g[strings.Index(g, "==")+2:], `"`)
 			c.Check("R3", "literal:"+lit, r.pos, strings.EqualFold("SDF_FILTER_"+lit, strings.TrimPrefix(r.Src, "const:")), fmt.Sprintf("keyword %q is encoded as %s", lit, strings.TrimPrefix(r.Src, "const:")))
 		}
 	}
@@ -376,11 +392,9 @@ func c16Ports(c *core.Ctx) {
 		bv := core.BitsOf(st.Val, x.leaf)
 		// which arm: len(p) == 1 or 2
 		arm := 0
-		for _, f := range core.FactsAt(st.Block()) {
-			if cmp, ok := f.V.(*ssa.BinOp); ok && cmp.Op == token.EQL && f.True {
-				if k, ok := core.ConstInt(cmp.Y); ok {
-					arm = int(k)
-				}
+		for _, eq := range eqFacts(st.Block()) {
+			if k, ok := core.ConstInt(eq[1]); ok {
+				arm = int(k)
 			}
 		}
 		hiName, loName := "", ""
